@@ -286,6 +286,10 @@ def jobs(tier, seed):
            dict(name="memcpy raw src", fn=check_memcpy, kw=dict(k="k_memcpy_ta", op="memcpy", raw_src=True)),
            dict(name="memcpy raw src tainted size", fn=check_memcpy, kw=dict(k="k_memcpy_ta_tn", op="memcpy", raw_src=True, nbits=32)),
            dict(name="memcmp tainted src", fn=check_memcpy, kw=dict(k="k_memcmp_tt", op="memcmp", raw_src=False)),
+           dict(name="memcmp uint32_t size operand", fn=check_memcpy, kw=dict(k="k_memcmp_tt_u32", op="memcmp", raw_src=False, nbits=32)),
+           dict(name="memcmp tainted<uint32_t> size operand", fn=check_memcpy, kw=dict(k="k_memcmp_tt_tu32", op="memcmp", raw_src=False, nbits=32)),
+           dict(name="memcmp uint16_t size operand", fn=check_memcpy, kw=dict(k="k_memcmp_tt_u16", op="memcmp", raw_src=False, nbits=16)),
+           dict(name="memcpy uint32_t size operand", fn=check_memcpy, kw=dict(k="k_memcpy_tt_u32", op="memcpy", raw_src=False, nbits=32)),
            dict(name="memcmp raw src", fn=check_memcpy, kw=dict(k="k_memcmp_ta", op="memcmp", raw_src=True))]
     for tag, a, g in (("char", 1, 1), ("int", 4, 4), ("long", 8, 4), ("llong", 8, 8)):
         it.append(dict(name="copy_and_verify_range " + tag, fn=check_cavr, kw=dict(tag=tag, asz=a, gsz=g), unwind=12))
